@@ -80,6 +80,7 @@ func (x *Exec) mergeCall(fn *ssa.Function, args []Value, bind []Value) Value {
 		}
 	}
 	x.Summ["merged-paths"] += n
+	x.Summ["merged-paths:"+fn.String()] += n
 	if !panicCond.IsFalse() {
 		if x.Branch(panicCond) {
 			panic(goPanic{Msg: panicMsg})
@@ -101,6 +102,13 @@ func (x *Exec) mergeCall(fn *ssa.Function, args []Value, bind []Value) Value {
 		res = x.iteValue(outs[i].cond, outs[i].val, res)
 	}
 	return res
+}
+
+func (x *Exec) bufContent(b BigV) BufContent {
+	if b.Buf == nil {
+		return BufContent{Mag: x.B.Int(0), V: x.B.RealInt(0), E: x.B.Int(0)}
+	}
+	return b.Buf.Val.(BufContent)
 }
 
 func (x *Exec) iteValue(c *smt.Term, a, b Value) Value {
@@ -135,6 +143,39 @@ func (x *Exec) iteValue(c *smt.Term, a, b Value) Value {
 	case PtrV:
 		if bv, ok := b.(PtrV); ok && av.Obj == nil && bv.Obj == nil {
 			return av
+		}
+	case SdkIntV:
+		if bv, ok := b.(SdkIntV); ok && av.Nil == bv.Nil {
+			if av.Nil {
+				return av
+			}
+			return SdkIntV{T: B.Ite(c, av.T, bv.T)}
+		}
+	case StructV:
+		if bv, ok := b.(StructV); ok && len(av.F) == len(bv.F) {
+			f := make([]Value, len(av.F))
+			for i := range f {
+				f[i] = x.iteValue(c, av.F[i], bv.F[i])
+			}
+			return StructV{f}
+		}
+	case BigV:
+		if bv, ok := b.(BigV); ok {
+			ca, cb := x.bufContent(av), x.bufContent(bv)
+			var content BufContent
+			if ca.V != nil && cb.V != nil {
+				content = BufContent{V: B.Ite(c, ca.V, cb.V), E: B.Ite(c, ca.E, cb.E)}
+				if ca.Mag != nil && cb.Mag != nil {
+					content.Mag = B.Ite(c, ca.Mag, cb.Mag)
+				}
+			} else {
+				content = BufContent{Mag: B.Ite(c, x.bufMag(av), x.bufMag(bv))}
+			}
+			return BigV{Neg: B.Ite(c, av.Neg, bv.Neg), Buf: x.newObj(content, "mergedbuf")}
+		}
+	case TimeV:
+		if bv, ok := b.(TimeV); ok {
+			return TimeV{Sec: B.Ite(c, av.Sec, bv.Sec), Nsec: B.Ite(c, av.Nsec, bv.Nsec)}
 		}
 	case SliceV:
 		if bv, ok := b.(SliceV); ok && av.Nil && bv.Nil {
